@@ -58,7 +58,7 @@ namespace mp {
 #define MP_UNUSED(x) (void)(x)
 /// A general error.
 class Error : public fmt::internal::RuntimeError {
-  int exit_code_ = EXIT_FAILURE;
+  int exit_code_ = -1;   // unspecified: reported as sol::FAILURE
  protected:
   Error() {}
 
